@@ -29,7 +29,7 @@ package trickle
 //@   loop 0 invariant[monotone_end] old(exhausted(db)) ==> exhausted(db)
 //@   loop 1 invariant[monotone_end] old(exhausted(db)) ==> exhausted(db)
 //@   ensures[monotone_end] old(exhausted(db)) ==> exhausted(db)
-//@   ensures[a_dag_pb_node] err == nil ==> typeis(filledNode, "*dag.ProtoNode")
+//@   ensures[a_dag_pb_node] err == nil ==> typeis(filledNode, "*dag.ProtoNode") && unbox(filledNode, "*dag.ProtoNode") != nil
 //@   ensures[width_bound] err == nil && maxDepth >= 1 ==> childCount(node) <= db.maxlinks + depthRepeat * (maxDepth - 1)
 
 // ---- C08: every sub-tree Append creates or refills gets the depth of its position ------------
